@@ -39,4 +39,6 @@ Zeta(k, M)   == <<"zeta", k, M>>       \* exp(2 pi i k / M)
 Var(name)    == <<"var", name>>        \* free variable bound by the harness
 XLogX(a)     == <<"xlogx", a>>         \* a ln a, continued by its limit 0 at a = 0
 Trapz(xs, ys) == <<"trapz", xs, ys>>   \* trapezoid rule over the sequences of abscissae xs and ordinates ys
+Acos(a)      == <<"acos", a>>          \* arccos in [0, pi]; not-a-number outside [-1, 1] (X01: triangle_angle)
+NaNT         == <<"nan">>              \* "not a number": the documented formula has no value here (X01)
 =============================================================================
